@@ -52,6 +52,10 @@ def _compute_centerline_dice_coefficient(
 ) -> float:
     ndim = reference.ndim
     assert 2 <= ndim <= 3, "clDice only implemented for 2D or 3D"
+    # the 2D skeletonisation only accepts C-contiguous input; masks cropped out of a larger
+    # array or coming in Fortran order (e.g. from nibabel) are not
+    reference = np.ascontiguousarray(reference)
+    prediction = np.ascontiguousarray(prediction)
     if ndim == 2:
         tprec = cl_score(prediction, skeletonize(reference))
         tsens = cl_score(reference, skeletonize(prediction))
